@@ -9,7 +9,7 @@ caught = [x for x in sys.argv[2].split(";") if x]
 m = {"id": sid, "property": a.get("property", sid.split("-")[0]),
      "origin": "independent sub-agent (given only the property text and a scratch worktree; nothing from /verif)",
      "summary": a.get("summary"), "needs_to_manifest": a.get("needs_to_manifest"), "files_touched": a.get("files_touched"),
-     "verified": ["sub-agent: " + x for x in a.get("what_i_ran", [])[:6]]
+     "verified": ["sub-agent: " + x for x in (a.get("what_i_ran") or a.get("verified") or [])[:6]]
                  + ["me: demo/run.sh in the scratch worktree: non-zero exit with the patch applied, exit 0 with the patch reverse-applied"]
                  + sys.argv[3:],
      "caught_by": caught}
